@@ -154,13 +154,28 @@ def handler : Handler := fun op args =>
       let (evs, r) := formatRun st cols lines s
       pure (fmtList fmtEv evs ++ " " ++ fmtExcept fmtResult r)) args
   | "fentry" => run (do
-      -- <style> <cols> <lines> <size setting> <frame> <resolved cols> <resolved lines> <glue> <spec>
-      let st ← pStyle; let cols ← nat; let lines ← nat; let sz ← pSize; let fr ← nat
+      -- <style> <subclass depth> <cols> <lines> <size setting> <frame> <resolved cols> <resolved lines> <glue> <spec>
+      let st0 ← pStyle; let depth ← nat; let cols ← nat; let lines ← nat; let sz ← pSize; let fr ← nat
       let rc ← nat; let rl ← nat; let glue ← word; let s ← chars
       if glue != "format" && glue != "fstring" && glue != "strformat" then failure
+      -- the instance's class: `depth` application-defined subclasses in front of the style class
+      let st ← (match dispatch ((List.range depth).reverse.map KName.app ++ styleMro st0) with
+        | some st => pure st | none => failure : P Style)
       let (img', evs, r) := formatEntry st cols lines (fun _ => (rc, rl)) ⟨sz, fr⟩ s
       pure (fmtList fmtEvE evs ++ " " ++ fmtExcept fmtResult r ++ " state " ++ fmtSize img'.size ++ " " ++
         toString img'.frame)) args
+  | "centry" => run (do
+      -- <entry> <style> <subclass depth> <cols> <lines> <spec>
+      let e ← word; let st ← pStyle; let depth ← nat; let cols ← nat; let lines ← nat; let s ← chars
+      let entry ← (if e == "check" then pure Entry.check else if e == "format" then pure Entry.format
+        else if e == "iter" then pure Entry.iter else if e == "urwid" then pure Entry.urwid else failure : P Entry)
+      let mro := (List.range depth).reverse.map KName.app ++ styleMro st
+      let r := entryCheck entry mro cols lines s
+      -- UrwidImage keeps the alignments, alpha and style arguments; sizes are not used and it sets z_index itself
+      let fmtU (r : Result) : String :=
+        fmtOptChar r.fmt.hAlign ++ " * " ++ fmtOptChar r.fmt.vAlign ++ " * " ++ fmtAlpha r.alpha ++ " " ++
+          fmtArgs (r.args.filter fun a => a.1 != "z_index")
+      pure (fmtExcept (if e == "urwid" then fmtU else fmtResult) r)) args
   | "draw" => run (do
       let st ← pStyle; let cols ← nat; let lines ← nat
       let h ← optOf chars; let w ← int; let v ← optOf chars; let ht ← int
@@ -169,6 +184,11 @@ def handler : Handler := fun op args =>
   | "sweep" => run (do
       let st ← pStyle; let al ← chars; let pre ← chars; let k ← nat
       pure (sweepWith (fun s => let r := checkFormatSpec st 80 30 s; (classOf r, fmtExcept fmtResult r)) al pre k)) args
+  | "sweepk" => run (do
+      -- the sweep on a class `depth` application subclasses below the style class
+      let st ← pStyle; let depth ← nat; let al ← chars; let pre ← chars; let k ← nat
+      let mro := (List.range depth).reverse.map KName.app ++ styleMro st
+      pure (sweepWith (fun s => let r := checkFormatSpecK mro 80 30 s; (classOf r, fmtExcept fmtResult r)) al pre k)) args
   | "ssweep" => run (do
       let st ← pStyle; let al ← chars; let pre ← chars; let k ← nat
       pure (sweepWith (fun s => let r := checkStyleFormatSpec st s; (classOf r, fmtExcept fmtArgs r)) al pre k)) args
